@@ -5,6 +5,9 @@ use crate::macgen::*;
 use crate::util::*;
 
 pub fn eval(op: &str) -> String {
+    if let Some(r) = crate::adevgen::eval_dev_any(op) {
+        return r;
+    }
     let outs = run_history(op);
     let verdict = oracle(op, &outs);
     format!("{} ## oracle={}", outs.join(" ; "), verdict)
@@ -530,10 +533,37 @@ pub fn run(tier: &str, seed: u64, dir: &str) {
             let op = h.done();
             sink.case(&op, &eval(&op), "cmd-sequences", true);
         }
+        // 8. answers owed for a Class A downlink survive Class C receptions before the next uplink
+        let nrxc = if thorough { 600 } else { 40 };
+        for i in 0..nrxc {
+            let mut h = Hist::new("C08", region, 20, 0, rng.next() & 0xffff, &[], None);
+            h.abp();
+            h.send(1, rng.chance(1, 4), &[0x11]);
+            let cmds = if i % 4 == 0 {
+                let mut c = dev_status_req();
+                c.extend_from_slice(&rx_timing_setup_req(rng.below(16) as u8));
+                c.extend_from_slice(&link_adr_req(rng.below(6) as u8, rng.below(8) as u8, 0x0007, 0, 1));
+                c
+            } else {
+                some_cmds(&mut rng, region, 15)
+            };
+            h.rx_auth(if rng.chance(1, 2) { "rx1" } else { "rx2" }, rng.range(-20, 20) as i8, 1, rng.chance(1, 3), &cmds, None, &[]);
+            h.snap();
+            for _ in 0..1 + rng.below(2) {
+                // application data heard while listening in Class C; sometimes with FOpts commands
+                let fo = if rng.chance(1, 3) { some_cmds(&mut rng, region, 10) } else { vec![] };
+                h.rx_auth("rxc", 3, 1, rng.chance(1, 3), &fo, Some(7), &[0x22, 0x23]);
+            }
+            h.snap().send(1, false, &[0x77]).timeout().snap().send(1, false, &[0x78]).timeout().snap();
+            let op = h.done();
+            sink.case(&op, &eval(&op), "answers-across-rxc", true);
+        }
     }
+    // device level: both front-ends with the scripted radio (see adevgen::add_dev_classes)
+    crate::adevgen::add_dev_classes("C08", &mut rng, &mut sink, thorough, eval);
     sink.finish(
         dir,
-        "histories through the real Mac (verif hook): ABP session, uplink, one authentic downlink carrying MAC commands in FOpts or on port 0, then two more uplinks and snapshots; sweeps over LinkADRReq DRxpowerxChMaskCntlxmask patterns (full grid in thorough), LinkADRReq blocks, all 256 DLSettings x frequency classes, all RXTimingSetup bytes, NewChannelReq/DlChannelReq index x frequency x DR-range classes, DevStatusReq x SNR, and random sequences of up to 3 downlinks, in all 9 regions. Distinct = distinct op lines; non-trivial = the downlink is authentic and carries at least one command.",
+        "histories through the real Mac (verif hook): ABP session, uplink, one authentic downlink carrying MAC commands in FOpts or on port 0, then two more uplinks and snapshots; sweeps over LinkADRReq DRxpowerxChMaskCntlxmask patterns (full grid in thorough), LinkADRReq blocks, all 256 DLSettings x frequency classes, all RXTimingSetup bytes, NewChannelReq/DlChannelReq index x frequency x DR-range classes, DevStatusReq x SNR, random sequences of up to 3 downlinks, and Class A requests followed by Class C receptions before the answering uplink, in all 9 regions. Distinct = distinct op lines; non-trivial = the downlink is authentic and carries at least one command.",
         false,
         serde_json::json!({}),
     );
